@@ -1,5 +1,5 @@
 #!/venv/bin/python
-"""tools/seedall.py [--verif DIR] [--tier quick] [names...] : runs the property's check against every seeded change
+"""tools/seedall.py [--verif DIR] [--tier quick] [--out FILE] [names...] : runs the property's check against every seeded change
 (scratch worktree of /repo + patch), optionally with the checks of another copy of /verif (to
 measure what an earlier revision of the machinery detected). Prints one line per seed."""
 import json
@@ -13,6 +13,10 @@ args = sys.argv[1:]
 if '--verif' in args:
     verif = args[args.index('--verif') + 1]
     del args[args.index('--verif'):args.index('--verif') + 2]
+outfile = None
+if '--out' in args:
+    outfile = args[args.index('--out') + 1]
+    del args[args.index('--out'):args.index('--out') + 2]
 if '--tier' in args:
     tier = args[args.index('--tier') + 1]
     del args[args.index('--tier'):args.index('--tier') + 2]
@@ -36,4 +40,4 @@ for n in names:
         print(n, pid, tier, 'exit', p.returncode, len(sigs), 'signatures', (sigs[0][:120] if sigs else ''), flush=True)
     finally:
         subprocess.run('git -C /repo worktree remove --force %s' % wt, shell=True)
-json.dump(res, open('/tmp/seedall_%s.json' % os.path.basename(verif.rstrip('/')), 'w'), indent=1)
+json.dump(res, open(outfile or '/tmp/seedall_%s.json' % os.path.basename(verif.rstrip('/')), 'w'), indent=1)
